@@ -216,6 +216,9 @@ def directed(tier):
             [["SET", "k", "5", "EX", "100"], ["DECRBY", "k", "2"]], [["SET", "k", "5", "EX", "100"], ["INCRBYFLOAT", "k", "2"]], [["SET", "k", "5", "EX", "100"], ["APPEND", "k", "2"]],
             [["SET", "k", "5", "EX", "100"], ["SETRANGE", "k", "0", "2"]], [["SET", "k", "5", "EX", "100"], ["SETBIT", "k", "1", "1"]], [["SET", "k", "5", "EX", "100"], ["GETSET", "k", "2"]],
             [["RPUSH", "k", "a"], ["SETEX", "k", "100", "v"]], [["RPUSH", "k", "a"], ["SET", "k", "v", "EX", "100"]],
+            [["SET", "k", "a"], ["SADD", "k2", "b"], ["MSET", "k", "a", "k2", "v"]],
+            [["ZADD", "k", "1", "a"], ["ZADD", "k2", "1", "b"], ["ZINTERSTORE", "k4", "2", "k", "k2"], ["RENAME", "k4", "k5"]],
+            [["ZADD", "k", "1", "a"], ["ZADD", "k2", "1", "b"], ["ZINTERSTORE", "k4", "2", "k", "k2"], ["RENAMENX", "k4", "k5"]],
             [["ZADD", "k", "XX", "5", "a"]], [["ZADD", "k", "9", "a"], ["ZADD", "k", "GT", "2", "a"]], [["ZADD", "k", "1", "a"], ["ZADD", "k", "LT", "2", "a"]],
             [["ZADD", "k", "1", "a"], ["ZADD", "k", "NX", "2", "a"]], [["SET", "k", "v"], ["LSET", "k", "0", "x"]], [["RPUSH", "k", "a", "b"], ["LSET", "k", "7", "x"]],
             [["RPUSH", "k", "a", "b"], ["LPOPRPUSH", "k", "k"]], [["RPUSH", "k", "a", "b"], ["RPOPLPUSH", "k", "k"]], [["RPUSH", "k", "a"], ["LPOPRPUSH", "k", "k2"]],
